@@ -7,6 +7,12 @@ def contracts():
     return core.contracts() + control.contracts()
 
 
+
+def bounded(tier, seed):
+    return [{"name": "C13.bounded", "script": "native/bounded_C13.py", "timeout": 3000,
+             "scope": "1..2 (thorough 3) always-matching marker components with one control component (stop(cond) / skip(cond) at every firing line, advance(1|2), "
+                      "last.nocontrib() -> push in last position) at every position, files of 1..6 one-cell records with no / an interior / a trailing blank record, scans *, 1*, 1-3"}]
+
 LEVEL = "proof"
 EXPLANATION = ("Matcher.matches is proved against control clauses written from the property (no component after a halt, skip means "
                "no match and does not outlive the line, stop mid-line means no match, stop as final component keeps the fold) with "
